@@ -598,8 +598,10 @@ fn no_silent_drop(o: &Outcome, world: &World, layout: &gen::Layout, named: &[Str
         }
         // which named file holds it?
         let file = named.iter().find(|f| layout.defs.get(*f).map(|v| v.iter().any(|d| &d.0 == kind && &d.1 == name)).unwrap_or(false));
+        // (a report may carry several labels, in several files)
+        let mentioned = |f: &str| out.diags.iter().filter(|d| d.severity == "error").any(|d| d.locs.iter().any(|l| crate::findings::rel_path(&l.path).ends_with(f)));
         let excused = match file {
-            Some(f) => errors.iter().flatten().any(|p| p.ends_with(f.as_str())),
+            Some(f) => errors.iter().flatten().any(|p| p.ends_with(f.as_str())) || mentioned(f.as_str()),
             None => true,
         };
         if !excused {
